@@ -62,6 +62,61 @@ OpReg ==
   16 :> "pauseprinter" @@
   17 :> "resumeprinter" @@
   18 :> "purgejobs" @@
+  19 :> "setprinterattributes" @@
+  20 :> "setjobattributes" @@
+  21 :> "getprintersupportedvalues" @@
+  22 :> "createprintersubscriptions" @@
+  23 :> "createjobsubscriptions" @@
+  24 :> "getsubscriptionattributes" @@
+  25 :> "getsubscriptions" @@
+  26 :> "renewsubscription" @@
+  27 :> "cancelsubscription" @@
+  28 :> "getnotifications" @@
+  29 :> "sendnotifications" @@
+  30 :> "getresourceattributes" @@
+  31 :> "getresourcedata" @@
+  32 :> "getresources" @@
+  33 :> "getprintsupportfiles" @@
+  34 :> "enableprinter" @@
+  35 :> "disableprinter" @@
+  36 :> "pauseprinteraftercurrentjob" @@
+  37 :> "holdnewjobs" @@
+  38 :> "releaseheldnewjobs" @@
+  39 :> "deactivateprinter" @@
+  40 :> "activateprinter" @@
+  41 :> "restartprinter" @@
+  42 :> "shutdownprinter" @@
+  43 :> "startupprinter" @@
+  44 :> "reprocessjob" @@
+  45 :> "cancelcurrentjob" @@
+  46 :> "suspendcurrentjob" @@
+  47 :> "resumejob" @@
+  48 :> "promotejob" @@
+  49 :> "schedulejobafter" @@
+  51 :> "canceldocument" @@
+  52 :> "getdocumentattributes" @@
+  53 :> "getdocuments" @@
+  54 :> "deletedocument" @@
+  55 :> "setdocumentattributes" @@
+  56 :> "canceljobs" @@
+  57 :> "cancelmyjobs" @@
+  58 :> "resubmitjob" @@
+  59 :> "closejob" @@
+  60 :> "identifyprinter" @@
+  61 :> "validatedocument" @@
+  62 :> "adddocumentimages" @@
+  63 :> "acknowledgedocument" @@
+  64 :> "acknowledgeidentifyprinter" @@
+  65 :> "acknowledgejob" @@
+  66 :> "fetchdocument" @@
+  67 :> "fetchjob" @@
+  68 :> "getoutputdeviceattributes" @@
+  69 :> "updateactivejobs" @@
+  70 :> "deregisteroutputdevice" @@
+  71 :> "updatedocumentstatus" @@
+  72 :> "updatejobstatus" @@
+  73 :> "updateoutputdeviceattributes" @@
+  74 :> "getnextdocumentdata" @@
   16385 :> "cupsgetdefault" @@
   16386 :> "cupsgetprinters" @@
   16387 :> "cupsaddmodifyprinter" @@
@@ -87,8 +142,12 @@ DelimReg ==
   5 :> "unsupportedattributes"
 ValueTagReg ==
   16 :> "unsupported" @@
+  17 :> "default" @@
   18 :> "unknown" @@
   19 :> "novalue" @@
+  21 :> "notsettable" @@
+  22 :> "deleteattribute" @@
+  23 :> "admindefine" @@
   33 :> "integer" @@
   34 :> "boolean" @@
   35 :> "enum" @@
@@ -189,9 +248,13 @@ FinishingsReg ==
 Aliases(name) ==
   CASE name = "clienterrorrequestentitytoolarge" -> {"clienterrorrequestentitytoolong"}
     [] name = "octetstring" -> {"octetstringunspecified"}
+    [] name = "deleteattribute" -> {"deleteattr"}
+    [] name = "admindefine" -> {"admindefined"}
+    [] name = "notsettable" -> {"notsettable"}
     [] OTHER -> {}
 Means(reg, code, sym) == code \in DOMAIN reg /\ (sym = reg[code] \/ sym \in Aliases(reg[code]))
 
+VersionReg == 256 :> "v1_0" @@ 257 :> "v1_1" @@ 512 :> "v2_0" @@ 513 :> "v2_1" @@ 514 :> "v2_2"   \* major * 256 + minor
 RFC8011Success == {0, 1, 2}
 SuccessClass   == 0..255
 =============================================================================
